@@ -371,9 +371,9 @@ def run_c25(ctx, replay):
 
         def rerun(sched, tag, module=module, cfg=cfg, mode=mode, extra=extra):
             # which ready case a Go select takes is random (and, un-gated, which of two timers fires first): the schedule
-            # is re-executed from scratch 3 times, one more failure confirms
-            return vlib.validate(ctx, module, cfg, execute(ctx, binary, mode, [sched] * 3, tag, extra=extra))
-        vs = confirm(ctx, rep, scheds, "C25_", rerun, per_key=2)
+            # is re-executed from scratch 6 times, one more failure confirms
+            return vlib.validate(ctx, module, cfg, execute(ctx, binary, mode, [sched] * 6, tag, extra=extra))
+        vs = confirm(ctx, rep, scheds, "C25_", rerun, per_key=4)
         for v in vs:
             v["part"] = part
         viol += vs
